@@ -259,15 +259,20 @@ StepMethod(st, d) ==
   IN Push(Loc(s1, <<"ep", fr.app, ep>>, d), [k |-> "ep", app |-> fr.app, ep |-> ep, own |-> 0])
 
 \* statements: kind/payload as the projector prints them
+\* a run of `| text` lines is one action statement "| <the texts joined by spaces>"
+RECURSIVE JoinSp(_)
+JoinSp(ls) == IF ls = <<>> THEN "" ELSE ls[1] \o (IF Len(ls) > 1 THEN " " ELSE "") \o JoinSp(Tail(ls))
+StmtKind(d) == IF d.kind = "doc" THEN "action" ELSE d.kind
 StmtPayload(st, d) ==
   CASE d.kind = "action" -> d.text
+    [] d.kind = "doc"    -> "| " \o JoinSp(d.lines)
     [] d.kind = "call"   -> (IF d.app = "." THEN Top(st).app ELSE d.app) \o " <- " \o d.ep
     [] d.kind = "ret"    -> d.text
     [] OTHER -> d.text
 
 StepStmt(st, d) ==
   LET r == NextStmt(st)
-      s1 == Add(r.st, {<<"stmt", r.app, r.ep, r.path, d.kind, StmtPayload(st, d)>>}
+      s1 == Add(r.st, {<<"stmt", r.app, r.ep, r.path, StmtKind(d), StmtPayload(st, d)>>}
                       \cup AttrFacts("stmt", <<r.app, r.ep, r.path>>, d))
       s2 == IF d.kind = "call" THEN [s1 EXCEPT !.calls = @ \cup {<<IF d.app = "." THEN Top(st).app ELSE d.app, d.ep>>}] ELSE s1
   IN Loc(s2, <<"stmt", r.app, r.ep, r.path>>, d)
